@@ -9,6 +9,7 @@ yield_point() calls made by the harness (operation invoke/return, callbacks).
 """
 import random
 import sys
+import _thread
 import threading
 
 
@@ -21,7 +22,7 @@ class SelfDeadlock(Exception):
 
 
 class LThread:
-    __slots__ = ('tid', 'fn', 'gate', 'thread', 'done', 'blocked_on', 'error', 'started')
+    __slots__ = ('tid', 'fn', 'gate', 'thread', 'done', 'blocked_on', 'error', 'started', 'ident', 'finished')
 
     def __init__(self, tid, fn):
         self.tid = tid
@@ -32,6 +33,8 @@ class LThread:
         self.blocked_on = None
         self.error = None
         self.started = False
+        self.ident = None
+        self.finished = None
 
 
 # ------------------------------------------------------------------------------
@@ -117,6 +120,12 @@ class ExplicitPolicy:
 
 
 def make_policy(spec, nthreads):
+    pol = _make_policy(spec, nthreads)
+    pol.raw_threads = bool(spec.get('raw'))      # logical threads unknown to the threading module
+    return pol
+
+
+def _make_policy(spec, nthreads):
     kind = spec['kind']
     if kind == 'random':
         return RandomPolicy(spec['seed'], spec['p'])
@@ -207,6 +216,14 @@ class Scheduler:
             self.log.add('abort', self.step, reason)
 
     def _body(self, t):
+        t.ident = threading.get_ident()
+        try:
+            self._body2(t)
+        finally:
+            if t.finished is not None:
+                t.finished.release()
+
+    def _body2(self, t):
         t.gate.acquire()
         t.started = True
         try:
@@ -252,9 +269,16 @@ class Scheduler:
         global _ACTIVE
         if _TOOL is None:
             raise RuntimeError('threadsim.install() was not called')
+        raw = bool(getattr(self.policy, 'raw_threads', False))
         for t in self.threads:
-            t.thread = threading.Thread(target=self._body, args=(t,), daemon=True)
-            t.thread.start()
+            if raw:
+                # threads the threading module does not know about (what _thread.start_new_thread, a C
+                # extension or an embedding application create): threading.active_count() stays 1
+                t.finished = threading.Semaphore(0)
+                _thread.start_new_thread(self._body, (t,))
+            else:
+                t.thread = threading.Thread(target=self._body, args=(t,), daemon=True)
+                t.thread.start()
         _ACTIVE = self
         first = self.policy.choose(self, self.runnable(), None, True)
         self.first = first
@@ -264,7 +288,10 @@ class Scheduler:
         self.main_gate.acquire()
         _ACTIVE = None
         for t in self.threads:
-            t.thread.join()
+            if t.thread is not None:
+                t.thread.join()
+            else:
+                t.finished.acquire()
         self.cur = None
         for t in self.threads:
             if t.error is not None:
@@ -343,7 +370,9 @@ class SimRLock:
         self.release()
 
     def _is_owned(self):
-        return self.owner is self.sched.cur
+        if self.owner is None:
+            return False
+        return self.owner is self.sched.cur or (self.sched.cur is None and self.owner == 'main')
 
 
 class SimLock(SimRLock):
@@ -488,7 +517,7 @@ def tracing(module, on):
 def _on_instruction(code, offset):
     s = _ACTIVE
     if s is not None:
-        if s.cur is not None and s.cur.thread.ident == threading.get_ident():
+        if s.cur is not None and s.cur.ident == threading.get_ident():
             s.yield_point(('op', code.co_name, offset))
         return
     b = _BUDGET
